@@ -60,17 +60,25 @@ Definition monitor_row (c : bcase) : list (Z * Z * Z * Z) :=
    returned; then k = number of events of the operation), and called
    NotificationsSinceHeight h for the listed heights. *)
 Definition answers := list (Z * option (list (Z * Z) * Z)).
+(* answers to requests during which the n-th read of the block header store
+   was made to fail: (n, h, answer) *)
+Definition fanswers := list (Z * Z * option (list (Z * Z) * Z)).
 Record mcase := {
   mbase : bcase;
-  mprobes : list (Z * list (Z * answers))     (* (step, [(k, answers)]) *)
+  mprobes : list (Z * list (Z * answers));     (* (step, [(k, answers)]) *)
+  mfaults : list (Z * list (Z * fanswers))     (* (step, [(k, answers under a read fault)]) *)
 }.
 
-Definition probes_of (pr : list (Z * list (Z * answers))) (i : Z) : list (Z * answers) :=
+Definition probes_of {A} (pr : list (Z * list A)) (i : Z) : list A :=
   flat_map (fun p => if p.1 =? i then p.2 else []) pr.
 
-(* kind 1: the model's moment backlog ([notifs_at_moment]) vs the implementation's *)
+Definition fans_eqb (a b : Z * Z * option (list (Z * Z) * Z)) : bool :=
+  (a.1.1 =? b.1.1) && since_eqb (a.1.2, a.2) (b.1.2, b.2).
+
+(* kind 1: the model's moment backlog ([notifs_at_moment],
+   [notifs_fault_at_moment]) vs the implementation's *)
 Fixpoint probe_mismatch (P : params) (s : state) (i : Z) (tr : list (op * obs))
-         (pr : list (Z * list (Z * answers))) : option Z :=
+         (pr : list (Z * list (Z * answers))) (fr : list (Z * list (Z * fanswers))) : option Z :=
   match tr with
   | [] => None
   | (o, ob) :: rest =>
@@ -79,49 +87,68 @@ Fixpoint probe_mismatch (P : params) (s : state) (i : Z) (tr : list (op * obs))
                 let model := map (fun q : Z * option (list (Z * Z) * Z) =>
                                     (q.1, notifs_at_moment s s' (zn kp.1) q.1)) kp.2 in
                 list_eqb since_eqb model kp.2) (probes_of pr i) in
-    if ok then probe_mismatch P s' (i + 1) rest pr else Some i
+    let okf := forallb (fun kp : Z * fanswers =>
+                let model := map (fun q : Z * Z * option (list (Z * Z) * Z) =>
+                                    (q.1, notifs_fault_at_moment s s' (zn kp.1) q.1.1 q.1.2)) kp.2 in
+                list_eqb fans_eqb model kp.2) (probes_of fr i) in
+    if ok && okf then probe_mismatch P s' (i + 1) rest pr fr else Some i
   end.
 
 (* kind 2: the spec on the implementation's own events and answers: the
    backlog is exact for the committed chain of the moment, and backlog plus
    the remaining events of the operation reproduce the committed chain after
    the operation *)
+Definition answer_ok (cm ca : list Z) (evs : list ev) (k : nat) (q : Z * option (list (Z * Z) * Z)) : bool :=
+  backlog_ok cm (length cm) q &&
+  match q with
+  | (h, Some (l, _)) =>
+    if (0 <? h) && (h <=? zlen cm - 1) then
+      match replay (take (zn h + 1) cm) (map (fun p : Z * Z => EConn p.1 p.2) l ++ drop k evs) with
+      | Some r => list_eqb Z.eqb r ca
+      | None => false
+      end
+    else true
+  | _ => true
+  end.
+
 Definition probe_ok (cb ca : list Z) (evs : list ev) (kp : Z * answers) : bool :=
   let k := zn kp.1 in
   let cm := committed_at cb ca evs k in
+  (k <=? length evs)%nat && forallb (answer_ok cm ca evs k) kp.2.
+
+(* under a read fault an error is acceptable wherever the backlog loop reads
+   at least one header; an answer WITHOUT error must still be the exact
+   backlog (never the part read before the fault) *)
+Definition fprobe_ok (cb ca : list Z) (evs : list ev) (kp : Z * fanswers) : bool :=
+  let k := zn kp.1 in
+  let cm := committed_at cb ca evs k in
   (k <=? length evs)%nat &&
-  forallb (fun q : Z * option (list (Z * Z) * Z) =>
-    backlog_ok cm (length cm) q &&
+  forallb (fun q : Z * Z * option (list (Z * Z) * Z) =>
     match q with
-    | (h, Some (l, _)) =>
-      if (0 <? h) && (h <=? zlen cm - 1) then
-        match replay (take (zn h + 1) cm) (map (fun p : Z * Z => EConn p.1 p.2) l ++ drop k evs) with
-        | Some r => list_eqb Z.eqb r ca
-        | None => false
-        end
-      else true
-    | _ => true
+    | (n, h, None) => ((0 <? h) && (h <? zlen cm - 1) && (1 <=? n)) || answer_ok cm ca evs k (h, None)
+    | (n, h, r) => answer_ok cm ca evs k (h, r)
     end) kp.2.
 
 Fixpoint first_bad_moment (prev_chain : list Z) (prev_f : nat) (i : Z) (tr : list (op * obs))
-         (pr : list (Z * list (Z * answers))) : option Z :=
+         (pr : list (Z * list (Z * answers))) (fr : list (Z * list (Z * fanswers))) : option Z :=
   match tr with
   | [] => None
   | (o, ob) :: rest =>
     let chain := o_chain ob in
     let f := length (o_fchain ob) in
-    if forallb (probe_ok (take prev_f prev_chain) (take f chain) (o_events ob)) (probes_of pr i)
-    then first_bad_moment chain f (i + 1) rest pr
+    if forallb (probe_ok (take prev_f prev_chain) (take f chain) (o_events ob)) (probes_of pr i) &&
+       forallb (fprobe_ok (take prev_f prev_chain) (take f chain) (o_events ob)) (probes_of fr i)
+    then first_bad_moment chain f (i + 1) rest pr fr
     else Some i
   end.
 
 Definition moment_rows (c : mcase) : list (Z * Z * Z * Z) :=
   let b := mbase c in let P := bparams b in
-  (match probe_mismatch P (init_state P (bgfh b)) 0 (btrace b) (mprobes c) with
+  (match probe_mismatch P (init_state P (bgfh b)) 0 (btrace b) (mprobes c) (mfaults c) with
    | Some i => [(bid b, 1, i, 5)]
    | None => []
    end) ++
-  (match first_bad_moment [hid (genesis P)] 1 0 (btrace b) (mprobes c) with
+  (match first_bad_moment [hid (genesis P)] 1 0 (btrace b) (mprobes c) (mfaults c) with
    | Some i => [(bid b, 2, i, 0)]
    | None => []
    end).
